@@ -214,21 +214,9 @@ func execIsolation(t *testing.T, p *Plan) *Result {
 				v("garbled-emission", "", "", "emission #%d is not a decodable message of one datagram: %v\n%s", e.E.Seq, e.Err, clip(string(e.E.Data), 300))
 			}
 		}
-		// relays lost to a failed write of the proxy: what it tried to send is held to the same purity rule
-		failedByID := map[string]int{}
-		for _, f := range w.N.FailedUDP {
-			fid := ""
-			if m, _, err := sipwire.Parse(f.Data); err == nil {
-				fid = msgID(m)
-			}
-			failedByID[fid]++
-			for _, m := range markerRe.FindAllSubmatch(f.Data, -1) {
-				if string(m[1]) != fid {
-					v("foreign-bytes-in-emission", fid, "failed-write", "the datagram the proxy tried to send for %s (the write failed) contains the marker of datagram %s\n%s", fid, m[1], clip(string(f.Data), 400))
-					break
-				}
-			}
-		}
+		// relays lost to a failed write of the proxy are emissions too (marked): what it tried to send is held to the
+		// same purity rule above and counts as the datagram's one relay
+		w.Stats["relay-lost-to-write-error"] += len(w.N.FailedUDP)
 		reused := 0
 		prevLen := map[int]int{}
 		for i := range p.Ops {
@@ -244,10 +232,6 @@ func execIsolation(t *testing.T, p *Plan) *Result {
 			sig := "shape=" + shape
 			switch shape {
 			case "intact":
-				if len(got) == 0 && failedByID[op.ID] == 1 {
-					w.stat("relay-lost-to-write-error")
-					continue
-				}
 				if len(got) != 1 {
 					v("intact-datagram-not-relayed-once", op.ID, sig, "intact datagram %s (%d bytes) produced %d emissions", op.ID, len(op.Data), len(got))
 					continue
